@@ -7,5 +7,4 @@ def run(ctx):
                         "IPv4 round trip: strided sweep in the quick tier, all 2^32 addresses in the thorough tier"]
 
 def replay(ctx, rp):
-    vlib.log("replay: the file holds the concrete input; re-run ./check C15")
-    return 2
+    return vlib.replay_any(ctx, rp)
